@@ -36,4 +36,19 @@ PROPS = {
         level_note="assumes valid UTF-8 values and distinct bundle/database names; the shell decoder itself is modelled (dec_string), not executed; trusted: Coq kernel, harness",
         explanation="round-trip theorem over all parameter sets; correspondence on directed boundary and random sets",
     ),
+    "C20": dict(
+        model="Gen/Paths.v (translated builders) + Model/PathsParse.v",
+        oracle="PathsCheck.case_spec_ok (expected components / reserved-location spec / decimal round trip)",
+        theorems_named="C20_parse_build / C20_disjoint / C20_consumable_* / C20_generated / C20_valid_names_noslash",
+        assumptions=[
+            "component validity: names without '/', diamond and generation ids accepted by ksuid.Parse restricted to base-62 strings (the library does not validate the alphabet; other 27-byte strings are not generated)",
+            "Go regexps are modelled by the prefix/suffix tests they denote; their agreement with regexp is part of the correspondence, not a theorem",
+            "descriptor YAML round trip is validated on randomly populated descriptors, not proved (library behaviour)",
+            "Unicode classes of non-ASCII runes come from a small table in the harness; the ASCII part of the alphabets is in the model",
+        ],
+        trusted=["go2v translation of pkg/model builders (single-return fmt.Sprint / + expressions)"],
+        level_text="C20_parse_build is proved for every builder and all valid components (any names without '/', any index in N, KSUID ids): the parser returns exactly the components; C20_disjoint/C20_expected_comps_injective give injectivity across and within kinds; consumable-store paths round-trip for every index below 2^64; generated-path detection equals the reserved-location spec for every string. The builders are regenerated from pkg/model by the translator each run, the parser model is compared with the Go parser on built, mutated and hostile paths, and YAML round trips are validated (not proved)",
+        level_note="YAML and Unicode tables are outside the model (validated only); regexps modelled by the string tests they denote; trusted: Coq kernel, go2v, harness",
+        explanation="parse/build theorems over all components; correspondence on generated and hostile paths",
+    ),
 }
